@@ -21,7 +21,7 @@ func init() { fw.Register("C10D", runC10D) }
 
 func runC10D(c *fw.Ctx) {
 	res := c.Res
-	res.Rule = "malformed byte streams into every decoder of types, consensus, gateway, rhp/v2, rhp/v3, rhp/v4 (one entry per type with an encoder/decoder pair): random bytes of length 0..300; a valid encoding with 8 bytes at EVERY offset (up to 320) overwritten by 2^60, 2^63, 2^64-1, len+1, 2^40, 2^32 (length-prefix inflation); random bit flips; valid encoding + garbage; truncation + garbage. Each decode runs under recover with a wall-clock check; outcome must be value-or-error. A case is non-trivial when the input is non-empty; distinct by (type, bytes). For types with a generated schema a sample is decoded by the Lean model too (ok+re-encoding / err / panic must agree)."
+	res.Rule = "malformed byte streams into every decoder of types, consensus, gateway, rhp/v2, rhp/v3, rhp/v4 (one entry per type with an encoder/decoder pair): random bytes of length 0..300; a valid encoding with 8 bytes at EVERY offset (up to 320) overwritten by 2^60, 2^63, 2^64-1, len+1, 2^40, 2^32 (length-prefix inflation); random bit flips; valid encoding + garbage; truncation + garbage. Each decode runs under recover with a wall-clock check; outcome must be value-or-error. A case is non-trivial when the input is non-empty; distinct by (type, bytes). Plus a structure-aware family for the multiproof block form (real simulator blocks re-encoded with one wrong proof length / leaf index / numLeaves / hash count / outline kinds vector at a time) into every decoder that carries it. For types with a generated schema a sample is decoded by the Lean model too (ok+re-encoding / err / panic must agree)."
 	ts := c11Types()
 	if c.Replay != "" {
 		c11Replay(c, ts)
@@ -122,6 +122,7 @@ func runC10D(c *fw.Ctx) {
 			}
 		}
 	}
+	c10MultiproofFamily(c, g)
 	res.CountN("types", len(ts))
 	c11Compare(c, model)
 }
